@@ -5,6 +5,7 @@ import (
 	"fmt"
 	"math/rand"
 	"os"
+	"path/filepath"
 	"strconv"
 	"strings"
 	"syscall"
@@ -94,7 +95,8 @@ func checkC08(c *core.Ctx) {
 		judgeWellFormed(c, "borrowed", i, p, f, randWriteOpts(r), "")
 	})
 
-	instruments := []string{"", "x", "Piano", strings.Repeat("i", 127), strings.Repeat("j", 128), strings.Repeat("k", 300), "ピアノ", "a b", "-dash", "é", strings.Repeat("long", 5000)}
+	instruments := []string{"", "x", "Piano", strings.Repeat("i", 127), strings.Repeat("j", 128), strings.Repeat("k", 300), "ピアノ", "a b", "-dash", "é", strings.Repeat("long", 5000),
+		"Drums", "Standard Drum Kit", "steel drums", "Percussion", "Bass", "Synth Lead", "Violin", "Acoustic Grand Piano", "channel 10", "10", "GM", "organ"}
 	c.Stream("dedicated", c.N(2500, 60000), func(i int, r *rand.Rand) {
 		p := model.RandPiece(r, model.GenOpts{MinLen: 1, MaxLen: 8, RestProb: 0.25, SettingProb: 0.2, TextProb: 0.4, KeyChanges: true, BassProb: 0.3, MaxDeg: 9, Tiny: i%3 == 0})
 		// chords that strike one key twice: bass an octave above the root coincides with the root
@@ -238,6 +240,15 @@ func checkC08(c *core.Ctx) {
 		}
 		f := model.Flags{Track: 1 + r.Intn(3)}
 		path := c.Scratch.Path("reused.mid")
+		if i%3 == 1 {
+			// -o names a symbolic link (latest.mid -> takes/take7.mid): the file behind it is replaced as a whole
+			dir := c.Scratch.Path("takes")
+			os.MkdirAll(dir, 0o755)
+			os.Remove(filepath.Join(dir, "take7.mid"))
+			os.Remove(filepath.Join(dir, "latest.mid"))
+			os.Symlink("take7.mid", filepath.Join(dir, "latest.mid"))
+			path = filepath.Join(dir, "latest.mid")
+		}
 		for k, p := range []model.Piece{long, shortp} {
 			args := append(append([]string{"write"}, f.Args()...), "-o", path)
 			res := run(c, p.YAML(model.YAMLStyle{}), args...)
